@@ -160,8 +160,8 @@ package encode
 //@   modifies e.buf e.mode e.lod1 e.err e.cSel mem.u8
 //@   ensures [C10.step.SetCReg] (proto.afterStyling S0 (proto.badAdj adj incr) S1)
 //@   ensures [C07.enc.setcreg.sel] (=> (proto.accepts S0 (proto.badAdj adj incr)) (and (= e.cSel (ite incr (bvand (bvadd (old e.cSel) #x01) #x3f) (old e.cSel))) (= e.nSel (old e.nSel))))
-//@   ensures [C01.enc.setcreg.instr] (=> (proto.accepts S0 (proto.badAdj adj incr)) (and XOK (= XEV (ivg.Destination.SetCReg nil.Iface adj incr c))))
-//@   ensures [C01.enc.setcreg.prefix] (=> (proto.accepts S0 (proto.badAdj adj incr)) XKEEP)
+//@   ensures [C01.enc.setcreg.instr] thorough (=> (proto.accepts S0 (proto.badAdj adj incr)) (and XOK (= XEV (ivg.Destination.SetCReg nil.Iface adj incr c))))
+//@   ensures [C01.enc.setcreg.prefix] thorough (=> (proto.accepts S0 (proto.badAdj adj incr)) XKEEP)
 
 //@ contract (*Encoder).SetNReg
 //@   note counts C02
@@ -173,17 +173,17 @@ package encode
 //@   at call encodeReal#0 assert [C01.enc.setnreg.candidates] (and (= arg1 f) (= (len *arg0) (int 0)))
 //@   at call encodeCoordinate#0 assert [C01.enc.setnreg.candidates] (and (= arg1 f) (= (len *arg0) (int 0)))
 //@   at call encodeZeroToOne#0 assert [C01.enc.setnreg.candidates] (and (= arg1 f) (= (len *arg0) (int 0)))
-//@   ensures [C01.enc.setnreg.cand.real] internal (=> (proto.accepts S0 (proto.badAdj adj incr)) (enc.realOK f (f32bits f) e.scratch (int 0)))
-//@   ensures [C01.enc.setnreg.cand.coord] internal (=> (proto.accepts S0 (proto.badAdj adj incr)) (enc.coordOK f (f32bits f) e.scratch (int 4)))
-//@   ensures [C01.enc.setnreg.cand.z2o] internal (=> (proto.accepts S0 (proto.badAdj adj incr)) (enc.z2oOK f (f32bits f) (f32bits (spec.z2oV e.scratch (int 8))) e.scratch (int 8)))
+//@   ensures [C01.enc.setnreg.cand.real] internal thorough (=> (proto.accepts S0 (proto.badAdj adj incr)) (enc.realOK f (f32bits f) e.scratch (int 0)))
+//@   ensures [C01.enc.setnreg.cand.coord] internal thorough (=> (proto.accepts S0 (proto.badAdj adj incr)) (enc.coordOK f (f32bits f) e.scratch (int 4)))
+//@   ensures [C01.enc.setnreg.cand.z2o] internal thorough (=> (proto.accepts S0 (proto.badAdj adj incr)) (enc.z2oOK f (f32bits f) (f32bits (spec.z2oV e.scratch (int 8))) e.scratch (int 8)))
 //@   ensures [C01.enc.setnreg.choice.kind] internal (=> (proto.accepts S0 (proto.badAdj adj incr)) (or (and (= opcode #xa8) (= iBest (int 0))) (and (= opcode #xb0) (= iBest (int 4))) (and (= opcode #xb8) (= iBest (int 8)))))
-//@   ensures [C01.enc.setnreg.choice.len] internal (=> (proto.accepts S0 (proto.badAdj adj incr)) (= nBest (spec.numLen (select e.scratch iBest))))
-//@   ensures [C01.enc.setnreg.choice.shortest] internal (=> (proto.accepts S0 (proto.badAdj adj incr)) (and (bvule nBest (spec.numLen (select e.scratch (int 0)))) (bvule nBest (spec.numLen (select e.scratch (int 4)))) (bvule nBest (spec.numLen (select e.scratch (int 8))))))
-//@   ensures [C01.enc.setnreg.copy.len] internal (=> (proto.accepts S0 (proto.badAdj adj incr)) (= (len e.buf) (bvadd XP0 (bvadd (int 1) nBest))))
-//@   ensures [C01.enc.setnreg.copy.opcode] internal (=> (proto.accepts S0 (proto.badAdj adj incr)) (= (at e.buf XP0) (bvor (ite incr #x07 adj) opcode)))
-//@   ensures [C01.enc.setnreg.copy.b0] internal (=> (proto.accepts S0 (proto.badAdj adj incr)) (= (at e.buf (bvadd XP0 (int 1))) (select e.scratch iBest)))
-//@   ensures [C01.enc.setnreg.copy.b1] internal (=> (and (proto.accepts S0 (proto.badAdj adj incr)) (bvugt nBest (int 1))) (= (at e.buf (bvadd XP0 (int 2))) (select e.scratch (bvadd iBest (int 1)))))
-//@   ensures [C01.enc.setnreg.copy.b23] internal (=> (and (proto.accepts S0 (proto.badAdj adj incr)) (bvugt nBest (int 2))) (and (= (at e.buf (bvadd XP0 (int 3))) (select e.scratch (bvadd iBest (int 2)))) (= (at e.buf (bvadd XP0 (int 4))) (select e.scratch (bvadd iBest (int 3))))))
+//@   ensures [C01.enc.setnreg.choice.len] internal thorough (=> (proto.accepts S0 (proto.badAdj adj incr)) (= nBest (spec.numLen (select e.scratch iBest))))
+//@   ensures [C01.enc.setnreg.choice.shortest] internal thorough (=> (proto.accepts S0 (proto.badAdj adj incr)) (and (bvule nBest (spec.numLen (select e.scratch (int 0)))) (bvule nBest (spec.numLen (select e.scratch (int 4)))) (bvule nBest (spec.numLen (select e.scratch (int 8))))))
+//@   ensures [C01.enc.setnreg.copy.len] internal thorough (=> (proto.accepts S0 (proto.badAdj adj incr)) (= (len e.buf) (bvadd XP0 (bvadd (int 1) nBest))))
+//@   ensures [C01.enc.setnreg.copy.opcode] internal thorough (=> (proto.accepts S0 (proto.badAdj adj incr)) (= (at e.buf XP0) (bvor (ite incr #x07 adj) opcode)))
+//@   ensures [C01.enc.setnreg.copy.b0] internal thorough (=> (proto.accepts S0 (proto.badAdj adj incr)) (= (at e.buf (bvadd XP0 (int 1))) (select e.scratch iBest)))
+//@   ensures [C01.enc.setnreg.copy.b1] internal thorough (=> (and (proto.accepts S0 (proto.badAdj adj incr)) (bvugt nBest (int 1))) (= (at e.buf (bvadd XP0 (int 2))) (select e.scratch (bvadd iBest (int 1)))))
+//@   ensures [C01.enc.setnreg.copy.b23] internal thorough (=> (and (proto.accepts S0 (proto.badAdj adj incr)) (bvugt nBest (int 2))) (and (= (at e.buf (bvadd XP0 (int 3))) (select e.scratch (bvadd iBest (int 2)))) (= (at e.buf (bvadd XP0 (int 4))) (select e.scratch (bvadd iBest (int 3))))))
 //@   let XQ (bvadd XP (int 1))
 //@   let XD (styl.number XB XP)
 //@   ensures [C01.enc.setnreg.instr] cumulative thorough (=> (proto.accepts S0 (proto.badAdj adj incr)) (and XOK (= XEV (ivg.Destination.SetNReg nil.Iface adj incr XD))))
@@ -197,7 +197,7 @@ package encode
 //@   ensures [C10.setlod.fields] (=> (proto.accepts S0 false) (and (= e.lod0 lod0) (= e.lod1 lod1)))
 //@   at call encodeReal#0 assert [C01.enc.setlod.opcode] (and (= (len e.buf) (bvadd XP0 (int 1))) (= (at e.buf XP0) #xc7) (= arg1 lod0))
 //@   at call encodeReal#1 assert [C01.enc.setlod.second] (= arg1 lod1)
-//@   ensures [C01.enc.setlod.length] (=> (proto.accepts S0 false) (and (bvuge (len e.buf) (bvadd XP0 (int 3))) (bvule (len e.buf) (bvadd XP0 (int 9))) (= (at e.buf XP0) #xc7)))
+//@   ensures [C01.enc.setlod.length] thorough (=> (proto.accepts S0 false) (and (bvuge (len e.buf) (bvadd XP0 (int 3))) (bvule (len e.buf) (bvadd XP0 (int 9))) (= (at e.buf XP0) #xc7)))
 
 //@ contract (*Encoder).StartPath
 //@   note counts C02
@@ -210,7 +210,7 @@ package encode
 //@   at call quantize#1 assert [C01.enc.startpath.resolution] (and (= e.highResolutionCoordinates HR) (= arg1 y))
 //@   at call encodeCoordinate#0 assert [C01.enc.startpath.opcode] (and (= (len e.buf) (bvadd XP0 (int 1))) (= (at e.buf XP0) (bvadd #xc0 adj)) (bvule adj #x06) (= arg1 (enc.quant HR x)))
 //@   at call encodeCoordinate#1 assert [C01.enc.startpath.second] (= arg1 (enc.quant HR y))
-//@   ensures [C01.enc.startpath.length] (=> (proto.accepts S0 (bvugt adj #x06)) (and (bvuge (len e.buf) (bvadd XP0 (int 3))) (bvule (len e.buf) (bvadd XP0 (int 9))) (= (at e.buf XP0) (bvadd #xc0 adj))))
+//@   ensures [C01.enc.startpath.length] thorough (=> (proto.accepts S0 (bvugt adj #x06)) (and (bvuge (len e.buf) (bvadd XP0 (int 3))) (bvule (len e.buf) (bvadd XP0 (int 9))) (= (at e.buf XP0) (bvadd #xc0 adj))))
 
 
 // ---- drawing operations
